@@ -214,7 +214,11 @@ func ExecuteSubscription(p ExecuteParams) chan *Result {
 					if !more {
 						return
 					}
-					resultChannel <- mapSourceToResponse(res)
+					select {
+					case resultChannel <- mapSourceToResponse(res):
+					case <-p.Context.Done():
+						return
+					}
 				}
 			}
 		default:
